@@ -24,6 +24,9 @@ import RF.Driver.MissedSpans
 import RF.Driver.OptRewrites
 import RF.Driver.Vertical
 import RF.Driver.Budgets
+import RF.Driver.Attrs
+import RF.Driver.Braces
+import RF.Driver.Types
 /-!
 `rfmodel`: one request per line on stdin, one response per line on stdout.
 `?` is printed for a request no handler understands (the harness treats it as a protocol error,
@@ -56,7 +59,10 @@ def handlers : List (String → List String → Option String) :=
    RF.Driver.MissedSpans.handle,
    RF.Driver.OptRewrites.handle,
    RF.Driver.Vertical.handle,
-   RF.Driver.Budgets.handle]
+   RF.Driver.Budgets.handle,
+   RF.Driver.Attrs.handle,
+   RF.Driver.Braces.handle,
+   RF.Driver.Types.handle]
 
 def dispatch (line : String) : String :=
   match (line.trimAscii.toString.splitOn " ").filter (· ≠ "") with
